@@ -201,6 +201,10 @@ func (a StringDict) M__len__() (Object, error) {
 }
 
 func (a StringDict) M__repr__() (Object, error) {
+	if err := enterContainer(); err != nil {
+		return nil, err
+	}
+	defer leaveContainer()
 	var out bytes.Buffer
 	out.WriteRune('{')
 	spacer := false
@@ -268,6 +272,10 @@ func (d StringDict) M__setitem__(key, value Object) (Object, error) {
 }
 
 func (a StringDict) M__eq__(other Object) (Object, error) {
+	if err := enterContainer(); err != nil {
+		return nil, err
+	}
+	defer leaveContainer()
 	b, ok := other.(StringDict)
 	if !ok {
 		return NotImplemented, nil
